@@ -102,6 +102,9 @@ func c08Concurrent(r *mon.Run, k int) error {
 		if err := c.quiesce(); err != nil {
 			return err
 		}
+		if !c.locksReleased(fmt.Sprintf("concurrent-x%d", k)) {
+			return nil
+		}
 		post, err := c.snapshot()
 		if err != nil {
 			return inconclusive("post-snapshot: %v", err)
